@@ -60,7 +60,9 @@ func VerifC19Others() {
 	verifAssert("host-built", err == nil)
 	tok, amount, err := e1.Extract(&http.Request{Host: host})
 	verifAssert("host-token", verifAnd(verifAnd(err == nil, tok == host), amount == 1))
-	e2, err := NewExtractor("request.header.X-Custom")
+	// the configured header name may be spelled in any case (HTTP header names are case-insensitive)
+	spell := []string{"X-Custom", "x-custom", "X-CUSTOM"}[verifConcretize(verifInt("spelling"), 0, 2)]
+	e2, err := NewExtractor("request.header." + spell)
 	verifAssert("header-built", err == nil)
 	h := http.Header{}
 	h.Set("X-Custom", hv)
@@ -72,5 +74,22 @@ func VerifC19Others() {
 	_, err = NewExtractor(v)
 	okWant := verifOr(verifOr(v == "client.ip", v == "request.host"), verifAnd(stringsHasPrefix(v, "request.header."), len(v) > len("request.header.")))
 	verifAssert("dispatch", (err == nil) == okWant)
+	verifReach("end")
+}
+
+// C19 corpus: concrete peer addresses as net/http produces them (complements the symbolic
+// check with real multi-group IPv6 literals and zones): exact token, same token iff same address.
+func VerifC19Corpus() {
+	addrs := []string{"10.1.2.3:80", "10.1.2.3:9999", "[::1]:80", "[fe80::1%eth0]:8080", "[fe80::1%eth1]:8080", "[fe80::1]:8080", "[2001:db8::ff00:42:8329]:443", "192.0.2.1:1"}
+	want := []string{"10.1.2.3", "10.1.2.3", "::1", "fe80::1%eth0", "fe80::1%eth1", "fe80::1", "2001:db8::ff00:42:8329", "192.0.2.1"}
+	ext, err := NewExtractor("client.ip")
+	verifAssert("extractor-built", err == nil)
+	i := verifConcretize(verifInt("i"), 0, len(addrs)-1)
+	j := verifConcretize(verifInt("j"), 0, len(addrs)-1)
+	ti, ai, ei := ext.Extract(&http.Request{RemoteAddr: addrs[i]})
+	tj, _, ej := ext.Extract(&http.Request{RemoteAddr: addrs[j]})
+	verifAssert("corpus-no-error", verifAnd(ei == nil, ej == nil))
+	verifAssert("corpus-token-is-peer-address", verifAnd(ti == want[i], ai == 1))
+	verifAssert("same-token-iff-same-address", (ti == tj) == (want[i] == want[j]))
 	verifReach("end")
 }
